@@ -27,16 +27,18 @@
        enclosing value - stated for the very function the streams evaluate;
      - accessors of accepted values: integer predicates/comparison/conversion,
        OID iteration and display, restricted-string iteration, bit access.
+     - termination (Proofs/TermP.v): every loop iteration consumes input or
+       closes an open value, so no decoding program ever exhausts fuel
+       proportional to program size plus input length - stated for the function
+       the streams evaluate: it never yields "out of fuel".
    PARTIAL - not proved on the model, decided by the correspondence streams
-   only: OCTET STRING segment iteration over captured constructed content and
-   OctetStringSource (C16/C17 cover the views), fuel adequacy of the model's
-   loops (= termination; the streams run with a hang watchdog), and
+   only: OctetStringSource as a source (C16 covers the segment iterator), and
    everything a model cannot exhibit: process abort, native stack depth and
    heap growth - measured by c01.entry, c01.access and c01.deep on the real
-   crate. *)
+   crate (hang watchdog, abort attribution, counting allocator). *)
 Require Import BV.Model.Base BV.Model.SrcB BV.Model.Length BV.Model.Tag BV.Model.Twos BV.Model.Int
                BV.Model.BitStr BV.Model.Oid BV.Model.Content BV.Model.Prog BV.Model.OctStr.
-Require Import BV.Proofs.ContentP BV.Proofs.TotalP BV.Proofs.DeltaP BV.Proofs.IntP BV.Proofs.OctStrP.
+Require Import BV.Proofs.ContentP BV.Proofs.TotalP BV.Proofs.DeltaP BV.Proofs.TermP BV.Proofs.IntP BV.Proofs.OctStrP.
 
 (* identifier and length octets, whatever follows and whatever the limit *)
 Theorem C01_headers : forall b m e,
@@ -99,6 +101,18 @@ Proof. exact any_program_never_panics_anywhere. Qed.
 Theorem C01_model_never_predicts_panic : forall m code d, run_program m code d <> [3%Z].
 Proof. exact run_program_never_panics. Qed.
 
+(* termination: fuel beyond program size + input length is never exhausted *)
+Theorem C01_programs_terminate : forall fuel m ps d,
+  (psizes ps + length d + 3 <= fuel)%nat ->
+  fst (decode_src m (fun c => exec fuel ps c []) (pure_src d None)) <> NoFuel.
+Proof. exact any_program_terminates. Qed.
+Theorem C01_model_never_runs_out_of_fuel : forall m code d, run_program m code d <> [4%Z].
+Proof. exact run_program_terminates. Qed.
+Theorem C01_generic_reader_terminates : forall f c n, (N.to_nat n < f)%nat -> Tm n (read_all f c) (fun _ => 0).
+Proof. exact Tm_read_all. Qed.
+Theorem C01_skipping_terminates : forall f c fl n, (N.to_nat n + 2 <= f)%nat -> Tm n (skip_opt f c fl) dskip.
+Proof. exact Tm_skip_opt. Qed.
+
 (* accessors of accepted values rely on what decoding validated *)
 Theorem C01_integer_accessors : forall c, valid_int c ->
   int_is_zero c = Ok (tc_val c =? 0)%Z /\
@@ -135,6 +149,10 @@ Print Assumptions C01_scripts.
 Print Assumptions C01_programs.
 Print Assumptions C01_programs_anywhere.
 Print Assumptions C01_model_never_predicts_panic.
+Print Assumptions C01_programs_terminate.
+Print Assumptions C01_model_never_runs_out_of_fuel.
+Print Assumptions C01_generic_reader_terminates.
+Print Assumptions C01_skipping_terminates.
 Print Assumptions C01_integer_accessors.
 Print Assumptions C01_integer_cmp.
 Print Assumptions C01_oid_iterates.
